@@ -176,6 +176,9 @@ def _history(payload, sub):
             elif ln.startswith('v'):
                 from dataflows import validate
                 links.append(validate())          # a built-in step with a resource selector of its own (state kept between runs?)
+            elif ln.startswith('x'):
+                from dataflows import set_type
+                links.append(set_type('_id', type='integer', transform=_shift))      # a non-idempotent transform: applied twice it shows
             else:
                 if ln.startswith('m'):
                     links.append(add_field(ln, 'string'))
@@ -220,6 +223,10 @@ def _history(payload, sub):
     return outs
 
 
+def _shift(v, **kw):
+    return v + 7 if isinstance(v, int) else v
+
+
 def _mut(name):
     def step(rows):
         for row in rows:
@@ -258,6 +265,10 @@ def _reference(payload, sub):
             from dataflows import validate
             links.append(validate())
             continue
+        if ln.startswith('x'):
+            from dataflows import set_type
+            links.append(set_type('_id', type='integer', transform=_shift))
+            continue
         if ln.startswith('m'):
             links.append(add_field(ln, 'string'))
         links.extend(counting(ln, ln.startswith('m')))
@@ -280,7 +291,7 @@ class C07(Prop):
                    'same-object configuration uses re-iterable sources and stateless steps, so only the checkpoint machinery carries state between runs']
     REAL_VS_STUB = {'real': ['dataflows Flow / checkpoint / stream / unstream / extended_json', 'the file system'], 'stub': ['process environment: TZ set per run; fork per RUN in the fresh configuration']}
     PROBES = ['negative-utc-offset', 'sub-hour-offset', 'duration-value', 'time-value', 'nested-object', 'high-precision-decimal', 'tz-changed-between-runs', 'same-object-config',
-              'fresh-config', 'delete-middle-checkpoint', 'resume-after-delete-all', 'three-checkpoints', 'empty-resource', 'mutating-step-after-checkpoint', 'year-below-1000', 'zero-column-rows', 'sources-through-load', 'same-object-rerun-of-load', 'validate-step-in-the-chain', 'nested-checkpoint-names', 'same-zone-name-different-offsets', 'built-in-steps-upstream-of-the-checkpoints', 'failed-run-of-the-same-flow-in-the-history', 'sources-from-a-data-package-on-disk'] + ['g:' + k for k in G_KINDS]
+              'fresh-config', 'delete-middle-checkpoint', 'resume-after-delete-all', 'three-checkpoints', 'empty-resource', 'mutating-step-after-checkpoint', 'year-below-1000', 'zero-column-rows', 'sources-through-load', 'same-object-rerun-of-load', 'validate-step-in-the-chain', 'nested-checkpoint-names', 'same-zone-name-different-offsets', 'built-in-steps-upstream-of-the-checkpoints', 'failed-run-of-the-same-flow-in-the-history', 'sources-from-a-data-package-on-disk', 'set_type-with-transform-in-the-chain'] + ['g:' + k for k in G_KINDS]
     TIERS = {'quick': dict(runs=500, wall=100, run_wall=300),
              'thorough': dict(runs=12000, wall=1700, run_wall=600)}
     SHRINK_FROZEN = ('fields',)
@@ -304,6 +315,8 @@ class C07(Prop):
                 links.append(rng.choice(['s%d', 'm%d'] if all(t['fields'] for t in tabs) else ['s%d']) % i)
             if rng.random() < 0.2:
                 links.append('v%d' % i)
+            if rng.random() < 0.15 and all(t['fields'] for t in tabs):
+                links.append('x%d' % i)
             links.append('cp:' + 'abc'[i])
         if rng.random() < 0.6:
             links.append(rng.choice(['tail', 'mtail']) if all(t['fields'] for t in tabs) else 'tail')
@@ -335,7 +348,7 @@ class C07(Prop):
             spec['src'] = 'load'          # the sources arrive through one load((descriptor, iterators)) step instead of plain iterables
         elif r_src < 0.4 and all(t['fields'] for t in tabs):
             spec['src'] = 'package'       # ... or from a data package on disk, read with load(path)
-        if config == 'same-object' and spec.get('src') != 'load' and rng.random() < 0.35 and any(not ln.startswith('cp:') and not ln.startswith('v') for ln in links):
+        if config == 'same-object' and spec.get('src') != 'load' and rng.random() < 0.35 and any(not ln.startswith('cp:') and not ln.startswith('v') and not ln.startswith('x') for ln in links):
             # history op: a run of the same Flow object that fails part-way, somewhere before the last run (not with
             # (descriptor, iterators) sources: the iterators handed to load are one-shot, half-consumed after a failure)
             ops.insert(rng.randrange(1, len(ops)), {'op': 'failrun', 'at': rng.choice([0, 1, 2, 5])})
@@ -387,6 +400,8 @@ class C07(Prop):
                         zn.setdefault(c['tzname'], set()).add(c['off'])
         if any(len(v) > 1 for v in zn.values()):
             ctx.probe('same-zone-name-different-offsets')
+        if any(ln.startswith('x') for ln in spec['links']):
+            ctx.probe('set_type-with-transform-in-the-chain')
         if any(ln.startswith('v') for ln in spec['links']):
             ctx.probe('validate-step-in-the-chain')
         if spec.get('src') == 'package':
@@ -447,7 +462,7 @@ class C07(Prop):
                     cut = i
                     break
             exp_src = [0] * len(total) if cut >= 0 or spec.get('src') == 'package' else list(total)      # (file sources are not counted)
-            exp_steps = {ln: (ref['steps'][ln] if i > cut else 0) for i, ln in enumerate(links) if not ln.startswith('cp:') and not ln.startswith('v')}
+            exp_steps = {ln: (ref['steps'][ln] if i > cut else 0) for i, ln in enumerate(links) if not ln.startswith('cp:') and not ln.startswith('v') and not ln.startswith('x')}
             if out['src'] != exp_src or out['steps'] != exp_steps:
                 under = sum(out['src']) < sum(exp_src) or any(out['steps'][k] < exp_steps[k] for k in exp_steps)
                 ctx.violation('not-recomputed-after-delete' if under else 'upstream-executed', 'counters',
